@@ -555,11 +555,18 @@ func (ps *PruningStorer) Remove(key []byte) error {
 
 	ps.lock.RLock()
 	defer ps.lock.RUnlock()
+	// the key has to disappear from every active persister, not only from the most recent one that accepts the call
+	removedFromAtLeastOne := false
 	for _, pd := range ps.activePersisters {
-		err = pd.persister.Remove(key)
-		if err == nil {
-			return nil
+		errRemove := pd.persister.Remove(key)
+		if errRemove == nil {
+			removedFromAtLeastOne = true
+			continue
 		}
+		err = errRemove
+	}
+	if removedFromAtLeastOne {
+		return nil
 	}
 
 	return err
